@@ -46,6 +46,7 @@ Record state := {
   s_nonce : tmap string;
   s_table : table;
   s_cache : tmap (list (string * cval));
+  s_has_cache : tmap bool;                     (* the per-type cache map exists (created by the first non-empty update) *)
   s_meta : tmap (list (string * N));           (* last access (logical ms) of every entry having a meta record *)
   s_now : N;
   s_stream : N;                                (* id of the stream the receiver reads *)
@@ -55,7 +56,7 @@ Record state := {
 
 Definition init_state : state :=
   {| s_watched := tconst None; s_version := tconst ""; s_nonce := tconst ""; s_table := [];
-     s_cache := tconst []; s_meta := tconst []; s_now := 0; s_stream := 0; s_sender_ok := true; s_closed := false |}.
+     s_cache := tconst []; s_has_cache := tconst false; s_meta := tconst []; s_now := 0; s_stream := 0; s_sender_ok := true; s_closed := false |}.
 
 Definition watched_names (s : state) (t : rtype) : list string :=
   match tget t (s_watched s) with Some l => l | None => [] end.
@@ -72,7 +73,7 @@ Definition watch (s : state) (t : rtype) (n : string) (remove : bool) : state * 
   let cur := watched_names s t in
   let nw := if remove then sdel n cur else sadd n cur in
   let s' := {| s_watched := tset t (Some nw) (s_watched s); s_version := s_version s; s_nonce := s_nonce s; s_table := s_table s;
-               s_cache := s_cache s; s_meta := s_meta s; s_now := s_now s; s_stream := s_stream s;
+               s_cache := s_cache s; s_has_cache := s_has_cache s; s_meta := s_meta s; s_now := s_now s; s_stream := s_stream s;
                s_sender_ok := s_sender_ok s; s_closed := s_closed s |} in
   (s', emit s' (mk_request s' t false)).
 
@@ -120,17 +121,19 @@ Definition apply_update (s : state) (t : rtype) (up : list (string * cval)) : st
   let om := tget t (s_meta s) in
   let nm := fold_left (fun acc kv => if amem (fst kv) acc then acc else aset (fst kv) (s_now s) acc) nc om in
   {| s_watched := s_watched s; s_version := s_version s; s_nonce := s_nonce s; s_table := s_table s;
-     s_cache := tset t nc (s_cache s); s_meta := tset t nm (s_meta s); s_now := s_now s; s_stream := s_stream s;
+     s_cache := tset t nc (s_cache s);
+     s_has_cache := (match up with [] => s_has_cache s | _ => tset t true (s_has_cache s) end);
+     s_meta := tset t nm (s_meta s); s_now := s_now s; s_stream := s_stream s;
      s_sender_ok := s_sender_ok s; s_closed := s_closed s |}.
 
 Definition set_ack (s : state) (t : rtype) (version : option string) (nonce : string) : state :=
   {| s_watched := s_watched s;
      s_version := match version with Some v => tset t v (s_version s) | None => s_version s end;
-     s_nonce := tset t nonce (s_nonce s); s_table := s_table s; s_cache := s_cache s; s_meta := s_meta s;
+     s_nonce := tset t nonce (s_nonce s); s_table := s_table s; s_cache := s_cache s; s_has_cache := s_has_cache s; s_meta := s_meta s;
      s_now := s_now s; s_stream := s_stream s; s_sender_ok := s_sender_ok s; s_closed := s_closed s |}.
 
 Definition set_table (s : state) (tb : table) : state :=
-  {| s_watched := s_watched s; s_version := s_version s; s_nonce := s_nonce s; s_table := tb; s_cache := s_cache s;
+  {| s_watched := s_watched s; s_version := s_version s; s_nonce := s_nonce s; s_table := tb; s_cache := s_cache s; s_has_cache := s_has_cache s;
      s_meta := s_meta s; s_now := s_now s; s_stream := s_stream s; s_sender_ok := s_sender_ok s; s_closed := s_closed s |}.
 
 (** what an accepted response hands to UpdateResource (the update the handlers see) *)
@@ -155,7 +158,10 @@ Definition handle_resp (c : scfg) (o : oracle) (s : state) (version nonce : stri
           | DTable tb => (set_table s1 tb, ack, [])
           | DMap res =>
               let up := filter_update c s1 t res in
-              (apply_update s1 t up, ack, [{| u_type := t; u_map := up |}])
+              let s2 := apply_update s1 t up in
+              (* the handlers see the resources in force after this update: for full-state types that
+                 is the update itself, for merge types the cache overlaid with the update *)
+              (s2, ack, [{| u_type := t; u_map := tget t (s_cache s2) |}])
           end
       end
   end.
@@ -175,7 +181,7 @@ Definition touch (s : state) (t : rtype) (n : string) : state :=
   match aget n (tget t (s_meta s)) with
   | None => s
   | Some _ =>
-      {| s_watched := s_watched s; s_version := s_version s; s_nonce := s_nonce s; s_table := s_table s; s_cache := s_cache s;
+      {| s_watched := s_watched s; s_version := s_version s; s_nonce := s_nonce s; s_table := s_table s; s_cache := s_cache s; s_has_cache := s_has_cache s;
          s_meta := tset t (aset n (s_now s) (tget t (s_meta s))) (s_meta s); s_now := s_now s; s_stream := s_stream s;
          s_sender_ok := s_sender_ok s; s_closed := s_closed s |}
   end.
@@ -194,18 +200,18 @@ Definition all_types : list rtype := [TLis; TRc; TCl; TEp; TNt].
 
 (** a non-authentication Recv error: new stream, nonces forgotten, every subscribed type re-requested *)
 Definition reconnect (s : state) : state * list (N * request) :=
-  let s1 := {| s_watched := s_watched s; s_version := s_version s; s_nonce := tconst ""; s_table := s_table s; s_cache := s_cache s;
+  let s1 := {| s_watched := s_watched s; s_version := s_version s; s_nonce := tconst ""; s_table := s_table s; s_cache := s_cache s; s_has_cache := s_has_cache s;
                s_meta := s_meta s; s_now := s_now s; s_stream := s_stream s + 1; s_sender_ok := true; s_closed := s_closed s |} in
   (s1, flat_map (fun t => match tget t (s_watched s1) with
                           | Some _ => emit s1 (mk_request s1 t false)
                           | None => [] end) all_types).
 
 Definition close_client (s : state) : state :=
-  {| s_watched := s_watched s; s_version := s_version s; s_nonce := s_nonce s; s_table := s_table s; s_cache := s_cache s;
+  {| s_watched := s_watched s; s_version := s_version s; s_nonce := s_nonce s; s_table := s_table s; s_cache := s_cache s; s_has_cache := s_has_cache s;
      s_meta := s_meta s; s_now := s_now s; s_stream := s_stream s; s_sender_ok := false; s_closed := true |}.
 
 Definition send_fails (s : state) : state :=
-  {| s_watched := s_watched s; s_version := s_version s; s_nonce := s_nonce s; s_table := s_table s; s_cache := s_cache s;
+  {| s_watched := s_watched s; s_version := s_version s; s_nonce := s_nonce s; s_table := s_table s; s_cache := s_cache s; s_has_cache := s_has_cache s;
      s_meta := s_meta s; s_now := s_now s; s_stream := s_stream s; s_sender_ok := false; s_closed := s_closed s |}.
 
 (** eviction sweep: entries idle for more than the expiry period, except the reserved listener *)
@@ -215,7 +221,7 @@ Definition is_reserved (t : rtype) (n : string) : bool :=
 
 Definition evict_one (s : state) (t : rtype) (n : string) : state * list (N * request) :=
   let s1 := {| s_watched := s_watched s; s_version := s_version s; s_nonce := s_nonce s; s_table := s_table s;
-               s_cache := tset t (adel n (tget t (s_cache s))) (s_cache s);
+               s_cache := tset t (adel n (tget t (s_cache s))) (s_cache s); s_has_cache := s_has_cache s;
                s_meta := tset t (adel n (tget t (s_meta s))) (s_meta s);
                s_now := s_now s; s_stream := s_stream s; s_sender_ok := s_sender_ok s; s_closed := s_closed s |} in
   watch s1 t n true.
@@ -229,7 +235,7 @@ Definition sweep (s : state) : state * list (N * request) :=
                (idle_names (fst acc) t) acc) all_types (s, []).
 
 Definition tick (s : state) (d : N) : state :=
-  {| s_watched := s_watched s; s_version := s_version s; s_nonce := s_nonce s; s_table := s_table s; s_cache := s_cache s;
+  {| s_watched := s_watched s; s_version := s_version s; s_nonce := s_nonce s; s_table := s_table s; s_cache := s_cache s; s_has_cache := s_has_cache s;
      s_meta := s_meta s; s_now := s_now s + d; s_stream := s_stream s; s_sender_ok := s_sender_ok s; s_closed := s_closed s |}.
 
 (** operations of a history *)
@@ -240,6 +246,7 @@ Inductive op :=
 | OLookupUnknown                                            (* a kind the manager does not know *)
 | OResp (version nonce : string) (p : payload)
 | ORespUnknown                                              (* a type url the client does not know *)
+| ORegister (t : rtype)                                      (* RegisterXDSUpdateHandler: the handler is replayed the current cache of the type *)
 | ORecvErr (auth : bool)
 | OSendErr
 | OTick (d : N)
@@ -259,6 +266,8 @@ Definition step (c : scfg) (o : oracle) (s : state) (x : op) : state * out :=
   | OLookupUnknown => (s, {| o_reqs := []; o_lookup := Some LMiss; o_updates := [] |})
   | OResp v n p => let '(s1, rq, ups) := handle_resp c o s v n p in (s1, {| o_reqs := rq; o_lookup := None; o_updates := ups |})
   | ORespUnknown => (s, no_out)
+  | ORegister t => (s, {| o_reqs := []; o_lookup := None;
+                          o_updates := if tget t (s_has_cache s) then [{| u_type := t; u_map := tget t (s_cache s) |}] else [] |})
   | ORecvErr true => (if s_closed s then s else close_client s, no_out)
   | ORecvErr false => if s_closed s then (s, no_out)
                       else let '(s1, rq) := reconnect s in (s1, {| o_reqs := rq; o_lookup := None; o_updates := [] |})
